@@ -21,7 +21,7 @@ TECHNIQUE = 'differential monitor across all access paths of the real API on gen
 RULE = ('files: vlib.model.gen_file, scaled channels (vlib.scalegen graphs), vlib.daqmx files; non-trivial = channel whose data spans '
         '>=2 chunks or segments; distinct = (family, per-segment signatures or DAQmx signature)')
 ASSUMPTIONS = ['raw_timestamps=True and False are related by TimestampArray.as_datetime64("us")']
-REQUIRED = ['path:file.data_chunks.collected', 'path:file.data_chunks.streamed', 'path:lazy[:]', 'path:lazy.data_chunks', 'path:file.data_chunks', 'path:iter', 'path:index', 'path:memmap-eager',
+REQUIRED = ['chunk_arrays_rechecked', 'family:big', 'path:file.data_chunks.collected', 'path:file.data_chunks.streamed', 'path:lazy[:]', 'path:lazy.data_chunks', 'path:file.data_chunks', 'path:iter', 'path:index', 'path:memmap-eager',
             'path:memmap-lazy', 'path:by-path', 'path:fileobj', 'path:raw_ts', 'path:unscaled', 'path:eager.read_data', 'path:eager.data',
             'family:model', 'family:scaled', 'family:daqmx', 'untyped_channels']
 N = {'quick': 2400, 'thorough': 120000}
@@ -30,6 +30,8 @@ N = {'quick': 2400, 'thorough': 120000}
 def gen_cases(tier, seed):
     for i in range(N[tier]):
         yield {'fam': ['model', 'scaled', 'daqmx'][i % 3], 's': seed * 1000003 + i}
+    for i in range(max(16, N[tier] // 20)):
+        yield {'fam': 'big', 's': seed * 1000003 + i}
 
 
 def shard_setup(ctx):
@@ -47,8 +49,15 @@ def build(case):
     rng = random.Random('c03/%s/%d' % (case['fam'], case['s']))
     if case['fam'] == 'model':
         segs = M.gen_file(rng, max_segs=6, max_chans=4, p_props=0.1)
-        blob = M.encode_file(segs)[0]
-        return blob, tuple(s.signature() for s in segs), [s.describe() for s in segs][:4], any(len(s.chunks) > 1 for s in segs) or len(segs) > 1
+        blob, _, lay = M.encode_file(segs)
+        cut = None
+        if case['s'] % 5 == 0 and segs[-1].chunks and all(ix[0] != 'str' for _, ix in segs[-1].data_objects()):
+            # a crash-truncated copy is a readable file too: every access path must agree on what it holds
+            l = lay.segs[-1]
+            if l['end'] - l['data_start'] > 1:
+                cut = rng.randrange(l['data_start'] + 1, l['end'])
+                blob = blob[:cut]
+        return blob, (cut is not None,) + tuple(s.signature() for s in segs), [{'cut': cut}] + [s.describe() for s in segs][:4], any(len(s.chunks) > 1 for s in segs) or len(segs) > 1
     if case['fam'] == 'scaled':
         chans = []
         for i in range(rng.randint(1, 3)):
@@ -65,9 +74,48 @@ def build(case):
                             inter=rng.random() < 0.3 and len({c[3] for c in chans}) == 1)
         blob = M.encode_file(segs)[0]
         return blob, ('scaled',) + tuple(s.signature() for s in segs), [s.describe() for s in segs][:2], True
+    if case['fam'] == 'big':
+        # chunks of several kilobytes: block-wise I/O (streams that return short reads, buffer sizes) only shows on these
+        nch = rng.randint(1, 3)
+        n = rng.randint(300, 3000)
+        inter = rng.random() < 0.4
+        chans = [('g', 'c%d' % i, rng.choice(['f64', 'i32', 'i16', 'u8', 'f32', 'i64']), n if inter else rng.randint(300, 3000), []) for i in range(nch)]
+
+        def vfb(p, t, k):
+            dt = M.TYPES[t][1]
+            return (np.arange(k, dtype='i8') * 7 % 251).astype(dt)
+        segs = M.build_file(rng, chans, nseg=rng.randint(1, 2), nchunks=(rng.randint(1, 3),), endian=rng.choice('<>'), values_fn=vfb, inter=inter)
+        blob = M.encode_file(segs)[0]
+        return blob, ('big',) + tuple(s.signature() for s in segs), [s.describe() for s in segs][:2], True
     f, _ = DQ.build({'s': case['s']})
     blob = f.encode()[0]
     return blob, ('daqmx',) + f.signature(), f.describe(), True
+
+
+class ShortReadStream(io.RawIOBase):
+    """Seekable raw (unbuffered) stream that hands out at most max_read bytes per call, as io.RawIOBase permits."""
+    def __init__(self, contents, max_read):
+        super().__init__()
+        self._inner = io.BytesIO(contents)
+        self._max_read = max_read
+
+    def readable(self):
+        return True
+
+    def seekable(self):
+        return True
+
+    def readinto(self, b):
+        view = memoryview(b).cast('B')
+        data = self._inner.read(min(len(view), self._max_read))
+        view[:len(data)] = data
+        return len(data)
+
+    def seek(self, offset, whence=os.SEEK_SET):
+        return self._inner.seek(offset, whence)
+
+    def tell(self):
+        return self._inner.tell()
 
 
 def img(x):
@@ -115,6 +163,10 @@ def run_case(case, ctx):
         ('raw_ts-eager', lambda: TdmsFile.read(io.BytesIO(blob), raw_timestamps=True), True),
         ('raw_ts-lazy', lambda: TdmsFile.open(io.BytesIO(blob), raw_timestamps=True), True),
     ]
+    if case['fam'] == 'big':
+        cap = 4096 if case['s'] % 2 else 1024          # larger than every metadata field of these files, smaller than their chunks
+        variants += [('short-read-stream-eager', lambda: TdmsFile.read(ShortReadStream(blob, cap)), False),
+                     ('short-read-stream-lazy', lambda: TdmsFile.open(ShortReadStream(blob, cap)), False)]
     for vname, opener, raw_ts in variants:
         try:
             tf = opener()
@@ -149,7 +201,7 @@ def same(ctx, vname, access, got, want, info, raw_ts=False, kind=''):
 
 
 def check_variant(ctx, tf, vname, raw_ts, ref, desc, eager0):
-    is_lazy = vname in ('lazy', 'memmap-lazy', 'by-path-lazy', 'raw_ts-lazy', 'fileobj')
+    is_lazy = vname in ('lazy', 'memmap-lazy', 'by-path-lazy', 'raw_ts-lazy', 'fileobj', 'short-read-stream-lazy')
     base = {'constructor': 'by-path', 'memmap-eager': 'memmap-eager', 'memmap-lazy': 'memmap-lazy', 'by-path': 'by-path', 'by-path-lazy': 'by-path',
             'raw_ts-eager': 'raw_ts', 'raw_ts-lazy': 'raw_ts', 'fileobj': 'fileobj'}.get(vname)
     if base:
@@ -219,7 +271,7 @@ def check_variant(ctx, tf, vname, raw_ts, ref, desc, eager0):
                     ctx.violation('raises/%s/index/%s%s' % (pre, util.exc_key(ex), kind), dict(info, exc=util.exc_detail(ex)))
             if is_lazy:
                 def chunks():
-                    parts, run = [], 0
+                    parts, kept, run = [], [], 0
                     for c in ch.data_chunks():
                         if c.offset != run:
                             raise AssertionError('chunk offset %d != running count %d' % (c.offset, run))
@@ -228,6 +280,12 @@ def check_variant(ctx, tf, vname, raw_ts, ref, desc, eager0):
                         if raw_ts and C.image(d)[0] == 'ts':
                             d = np.asarray(d.as_datetime64('us')) if len(d) else np.zeros(0, dtype='M8[us]')
                         parts.append(C.image(d))
+                        kept.append(d)
+                    # np.concatenate([c[:] for c in ch.data_chunks()]): arrays handed out earlier must still hold their values
+                    ctx.count('chunk_arrays_rechecked', len(kept))
+                    for k_, (d, im) in enumerate(zip(kept, parts)):
+                        if not C.img_equal(C.image(d), im):
+                            raise AssertionError('array of chunk %d changed while later chunks were read' % k_)
                     return parts
                 try:
                     parts = chunks()
@@ -235,7 +293,7 @@ def check_variant(ctx, tf, vname, raw_ts, ref, desc, eager0):
                     if not C.img_equal(C.image_concat(parts, like=C.image_slice(C.image(R), slice(0, 0))), C.image(R), loose_kind=True):
                         ctx.violation('differs/lazy/channel.data_chunks%s' % kind, info)
                 except AssertionError as ex:
-                    ctx.violation('chunk-offset/channel.data_chunks', dict(info, msg=str(ex)))
+                    ctx.violation(('chunk-array-changed-later' if 'changed while' in str(ex) else 'chunk-offset') + '/channel.data_chunks', dict(info, msg=str(ex)))
                 except Exception as ex:
                     ctx.violation('raises/lazy/channel.data_chunks/%s%s' % (util.exc_key(ex), kind), dict(info, exc=util.exc_detail(ex)))
         # ---- unscaled accessors
